@@ -34,6 +34,11 @@ fn main() {
         }),
     };
     let out = arg(&args, "--out");
+    svh::io::set_io_model(
+        &arg(&args, "--io-write").unwrap_or_else(|| "inplace".into()),
+        &arg(&args, "--io-list").unwrap_or_else(|| "lists-tmp".into()),
+        &arg(&args, "--io-short-wallet").unwrap_or_else(|| "panics".into()),
+    );
     svh::panics::install();
     svh::watch::configure(out.clone(), &prop, ctx.tier(), ctx.seed, ctx.shard, &ctx.build);
     let started = Instant::now();
